@@ -240,8 +240,15 @@ def g4(F, rep):
     zh = _var_def(pi, "idat_zlib_header")
     rep.add("G4", "png:zlib-header-from-concatenation", len(zh) == 1 and re.match(r"^array\{index\(var\(deflate_stream\), K0\), index\(var\(deflate_stream\), K1\)\}$", zh[0]) is not None, iw, "idat_zlib_header := %s" % zh)
     body = [flow.describe(pi, t["args"][0], names=True) for bb, t in pi.calls() if strip_generics(callee_def(t)).endswith("to_vec")]
-    rep.add("G4", "png:stream=concatenation[2..len-4]", body == ["index(var(deflate_stream), Range{K2, Sub(len(var(deflate_stream)), K4).0})"] or
-            body == ["index(var(deflate_stream), Range{K2, Sub(len(var(deflate_stream)), K4)})"], iw, "returned stream := %s" % body)
+    ok_body = body == ["index(var(deflate_stream), Range{K2, Sub(len(var(deflate_stream)), K4).0})"] or body == ["index(var(deflate_stream), Range{K2, Sub(len(var(deflate_stream)), K4)})"]
+    if not ok_body and not body:
+        # in place: truncate(len - 4) then drain(..2), in that order, and the trimmed vector is what is returned
+        tr = [(bb, flow.describe(pi, t["args"][1], names=True)) for bb, t in pi.calls() if strip_generics(callee_def(t)).endswith("Vec::truncate") and flow.describe(pi, t["args"][0], names=True) == "var(deflate_stream)"]
+        dr = [(bb, flow.describe(pi, t["args"][1], names=True)) for bb, t in pi.calls() if strip_generics(callee_def(t)).endswith("Vec::drain") and flow.describe(pi, t["args"][0], names=True) == "var(deflate_stream)"]
+        ok_body = (len(tr) == 1 and len(dr) == 1 and re.match(r"^Sub\(len\(var\(deflate_stream\)\), K4\)(\.0)?$", tr[0][1]) is not None and
+                   re.match(r"^RangeTo\{K2\}$", dr[0][1]) is not None and pi.dominates(tr[0][0], dr[0][0]))
+        body = ["truncate(%s); drain(%s)" % (tr[0][1] if tr else None, dr[0][1] if dr else None)]
+    rep.add("G4", "png:stream=concatenation[2..len-4]", ok_body, iw, "returned stream := %s" % body)
     cl = _var_def(pi, "chunk_len")
     ok_len = len(cl) == 1 and "from_be_bytes" in cl[0]
     rep.add("G4", "png:length-big-endian", ok_len, iw, "chunk_len := %s" % [x[:120] for x in cl])
@@ -493,6 +500,9 @@ def g8(F, rep):
         st = b.term(sb)
         if st["k"] != "switch" or st.get("exp") or _is_drop_flag(b, st["d"]):
             continue
+        from .c04 import _panics as _pn
+        if any(_pn(b, x) for x in [y for _, y in st["targets"]] + [st["otherwise"]]) or flow.const_eval(b, st["d"]) is not None:
+            continue                     # an assertion (looked after by the failure-site rules) / `cfg!(debug_assertions)`
         p = op_place(st["d"])
         dd = b.single_def(p["l"]) if p is not None and not p["p"] else None
         if dd and dd[2] == "assign" and dd[3]["k"] == "discr":
